@@ -341,3 +341,63 @@ pub fn de_limit(ty: &str, xml: &str, limit: Option<usize>) -> Result<Value, Stri
         Ok(serde_json::to_value(&val).unwrap())
     })
 }
+
+
+/// A schema-less target: records what the deserializer hands to `deserialize_any` - maps with their
+/// keys in order (attribute keys sorted, their order is presentation) and strings. It observes the
+/// whole DeEvent stream (names, attributes, merged text) without any hook in quick-xml.
+#[derive(Debug, Clone, PartialEq)]
+pub enum AnyNode {
+    Text(String),
+    Map(Vec<(String, AnyNode)>),
+    Seq(Vec<AnyNode>),
+    Unit,
+}
+
+impl<'de> Deserialize<'de> for AnyNode {
+    fn deserialize<D: serde::Deserializer<'de>>(d: D) -> Result<Self, D::Error> {
+        struct V;
+        impl<'de> serde::de::Visitor<'de> for V {
+            type Value = AnyNode;
+            fn expecting(&self, f: &mut std::fmt::Formatter) -> std::fmt::Result {
+                f.write_str("anything")
+            }
+            fn visit_str<E: serde::de::Error>(self, v: &str) -> Result<AnyNode, E> {
+                Ok(AnyNode::Text(v.to_string()))
+            }
+            fn visit_string<E: serde::de::Error>(self, v: String) -> Result<AnyNode, E> {
+                Ok(AnyNode::Text(v))
+            }
+            fn visit_unit<E: serde::de::Error>(self) -> Result<AnyNode, E> {
+                Ok(AnyNode::Unit)
+            }
+            fn visit_map<A: serde::de::MapAccess<'de>>(self, mut m: A) -> Result<AnyNode, A::Error> {
+                let mut attrs = Vec::new();
+                let mut rest = Vec::new();
+                while let Some(k) = m.next_key::<String>()? {
+                    let v = m.next_value::<AnyNode>()?;
+                    if k.starts_with('@') {
+                        attrs.push((k, v));
+                    } else {
+                        rest.push((k, v));
+                    }
+                }
+                attrs.sort_by(|a, b| a.0.cmp(&b.0));
+                attrs.extend(rest);
+                Ok(AnyNode::Map(attrs))
+            }
+            fn visit_seq<A: serde::de::SeqAccess<'de>>(self, mut s: A) -> Result<AnyNode, A::Error> {
+                let mut v = Vec::new();
+                while let Some(x) = s.next_element::<AnyNode>()? {
+                    v.push(x);
+                }
+                Ok(AnyNode::Seq(v))
+            }
+        }
+        d.deserialize_any(V)
+    }
+}
+
+pub fn de_any(xml: &str) -> Result<AnyNode, String> {
+    quick_xml::de::from_str::<AnyNode>(xml).map_err(|e| format!("{e:?}"))
+}
